@@ -144,6 +144,25 @@ def _fold(node, env):
         raise _NoFold()
     if isinstance(node, ast.Call) and isinstance(node.func, ast.Name) and node.func.id == "set" and not node.args:
         return frozenset()
+    if isinstance(node, ast.Call) and isinstance(node.func, ast.Name) and node.func.id in ("int", "abs", "max", "min") and node.args and not node.keywords \
+            and node.func.id not in env:
+        vals = [_fold(a, env) for a in node.args]
+        if not all(isinstance(v, (int, float)) and not isinstance(v, bool) for v in vals):
+            raise _NoFold()
+        try:
+            if node.func.id == "int" and len(vals) == 1:
+                return int(vals[0])
+            if node.func.id == "abs" and len(vals) == 1:
+                return abs(vals[0])
+            if node.func.id == "max" and len(vals) >= 2:
+                return max(vals)
+            if node.func.id == "min" and len(vals) >= 2:
+                return min(vals)
+        except (ValueError, OverflowError):
+            raise _NoFold()
+        raise _NoFold()
+    if isinstance(node, ast.List):
+        return [_fold(e, env) for e in node.elts]
     raise _NoFold()
 
 
